@@ -1,6 +1,51 @@
 //! Shared helpers of the verification harness: PRNG, argument parsing, output.
 use std::io::{BufWriter, Write};
 
+use llfree::{Class, Classing, Policy, PolicyFn, TREE_FRAMES};
+
+// ---------------------------------------------------------------------------------------------
+// The policy functions of the harness (Coq: Policies.v).  They live here so that `seqrun` (which
+// runs allocators with them) and `polrun` (which tabulates them for the comparison with the Coq
+// definitions) use the very same functions.
+
+/// eval/tests/integration.rs `zeroed_steals_from_huge` (Policies.v `pol_zeroed`)
+pub fn zeroed_policy(requested: Class, target: Class, free: usize) -> Policy {
+    if requested.0 > target.0 {
+        return Policy::Steal;
+    } else if requested.0 < target.0 {
+        return Policy::Demote;
+    }
+    match free {
+        f if f >= TREE_FRAMES / 2 => Policy::Match(1),
+        f if f >= TREE_FRAMES / 64 => Policy::Match(u8::MAX),
+        _ => Policy::Match(0),
+    }
+}
+
+/// Three classes; requested 0 on target 2 and requested 2 on target 0 are unusable, everything else
+/// is rated like the simple policy (Coq: Policies.v `pol_custom`).
+pub fn custom_policy(requested: Class, target: Class, free: usize) -> Policy {
+    if (requested.0 == 0 && target.0 == 2) || (requested.0 == 2 && target.0 == 0) {
+        return Policy::Invalid;
+    }
+    zeroed_policy(requested, target, free)
+}
+
+/// The names of the transcript's `policy=` field, in the order of Policies.v `pol_select`.
+pub const POLICY_NAMES: [&str; 5] = ["simple", "movable", "zeroed", "zeroslot", "custom"];
+
+/// The policy function a `policy=<name>` configuration runs with.
+pub fn policy_by_name(name: &str) -> PolicyFn {
+    match name {
+        // the nested policy functions of the crate's own classings
+        "simple" | "zeroslot" => Classing::simple(1).0.policy,
+        "movable" => Classing::movable(1).0.policy,
+        "zeroed" => zeroed_policy,
+        "custom" => custom_policy,
+        _ => panic!("unknown policy {name}"),
+    }
+}
+
 /// SplitMix64: every random choice of a run derives from one seed.
 #[derive(Clone)]
 pub struct Rng(pub u64);
